@@ -598,6 +598,37 @@ pub fn canon_of(m: &AutosarModel) -> Canon {
     c
 }
 
+/// canonical key of every element of the model (same walk as canon_walk)
+fn element_keys(m: &AutosarModel) -> Vec<(Element, String)> {
+    fn keys(e: &Element, path: &str, out: &mut Vec<(Element, String)>) {
+        let split = e.element_type().splittable() != 0;
+        let mut counts: BTreeMap<String, usize> = BTreeMap::new();
+        let mut seen: BTreeMap<String, usize> = BTreeMap::new();
+        for k in e.sub_elements() {
+            let nm = k.element_name().to_str().to_string();
+            let ord = *counts.get(&nm).unwrap_or(&0);
+            counts.insert(nm, ord + 1);
+            let kp = format!("{}/{}", path, multi_key(seg(&k, split, ord), &mut seen));
+            keys(&k, &kp, out);
+        }
+        out.push((e.clone(), path.to_string()));
+    }
+    let mut ks = vec![];
+    keys(&m.root_element(), "", &mut ks);
+    ks
+}
+
+/// the per-file view ArxmlFile::elements_dfs as the sorted list of canonical keys (with the depth the iterator reports)
+fn file_dfs_keys(m: &AutosarModel, f: &ArxmlFile) -> Vec<String> {
+    let ks = element_keys(m);
+    let mut v: Vec<String> = f
+        .elements_dfs()
+        .map(|(d, e)| format!("{} d={}", ks.iter().find(|(x, _)| *x == e).map(|(_, k)| k.as_str()).unwrap_or("<not-in-model>"), d))
+        .collect();
+    v.sort();
+    v
+}
+
 fn load_alone(f: &CaseFile) -> Result<AutosarModel, String> {
     let m = AutosarModel::new();
     match guard(|| m.load_buffer(&f.text, &f.name, f.strict)) {
@@ -669,15 +700,18 @@ pub fn oracle_case(names: &Names, c: &Case, out: &mut OracleOut) {
 fn oracle_case_inner(names: &Names, c: &Case, out: &mut OracleOut) {
     // single-file loads
     let mut alone: Vec<Option<(Canon, String)>> = vec![];
+    let mut alone_dfs: Vec<Vec<String>> = vec![];
     let mut alone_err: Vec<String> = vec![];
     for f in &c.files {
         match load_alone(f) {
             Ok(m) => {
                 let t = m.files().next().and_then(|x| x.serialize().ok()).unwrap_or_default();
+                alone_dfs.push(m.files().next().map(|x| file_dfs_keys(&m, &x)).unwrap_or_default());
                 alone.push(Some((canon_of(&m), t)));
             }
             Err(e) => {
                 alone_err.push(e);
+                alone_dfs.push(vec![]);
                 alone.push(None)
             }
         }
@@ -797,6 +831,22 @@ fn oracle_case_inner(names: &Names, c: &Case, out: &mut OracleOut) {
                 out.fails.push(format!("FAIL {} file-missing order={:?} file {} is not registered", c.id, order, c.files[fi].name));
                 continue;
             };
+            // the per-file view ArxmlFile::elements_dfs: the elements (and depths) the file yields when loaded on its own
+            match guard(|| file_dfs_keys(merged, &fobj)) {
+                Ok(v) => {
+                    if v != alone_dfs[fi] {
+                        let only_alone: Vec<&String> = alone_dfs[fi].iter().filter(|k| !v.contains(k)).collect();
+                        let only_merged: Vec<&String> = v.iter().filter(|k| !alone_dfs[fi].contains(k)).collect();
+                        out.fails.push(format!(
+                            "FAIL {} file-dfs order={:?} file {} elements_dfs in the merged model differs from the file on its own: {} elements vs {}; missing [{}] extra [{}]",
+                            c.id, order, c.files[fi].name, v.len(), alone_dfs[fi].len(),
+                            only_alone.iter().take(3).map(|x| trunc(x)).collect::<Vec<_>>().join(" | "),
+                            only_merged.iter().take(3).map(|x| trunc(x)).collect::<Vec<_>>().join(" | ")
+                        ));
+                    }
+                }
+                Err(_) => out.fails.push(format!("FAIL {} file-dfs order={:?} file {}: PANIC in elements_dfs", c.id, order, c.files[fi].name)),
+            }
             match guard(|| fobj.serialize()) {
                 Ok(Ok(t)) => {
                     if &t == atext {
@@ -845,22 +895,7 @@ struct Snap {
 }
 fn snap_of(m: &AutosarModel) -> Snap {
     let canon = canon_of(m);
-    // canonical key of every element (same walk as canon_walk)
-    fn keys(e: &Element, path: &str, out: &mut Vec<(Element, String)>) {
-        let split = e.element_type().splittable() != 0;
-        let mut counts: BTreeMap<String, usize> = BTreeMap::new();
-        let mut seen: BTreeMap<String, usize> = BTreeMap::new();
-        for k in e.sub_elements() {
-            let nm = k.element_name().to_str().to_string();
-            let ord = *counts.get(&nm).unwrap_or(&0);
-            counts.insert(nm, ord + 1);
-            let kp = format!("{}/{}", path, multi_key(seg(&k, split, ord), &mut seen));
-            keys(&k, &kp, out);
-        }
-        out.push((e.clone(), path.to_string()));
-    }
-    let mut ks = vec![];
-    keys(&m.root_element(), "", &mut ks);
+    let ks = element_keys(m);
     let mut idents: Vec<(String, String)> = m
         .identifiable_elements()
         .map(|(p, w)| (p, w.upgrade().and_then(|e| ks.iter().find(|(x, _)| *x == e).map(|(_, k)| k.clone())).unwrap_or("<dead>".into())))
@@ -1320,6 +1355,112 @@ fn multi_case(id: usize, rng: &mut SplitMix64, stats: &mut BTreeMap<String, u64>
     Case { id, kind: kind.into(), files, orders: permutations(nf) }
 }
 
+fn hdr50(body: &str) -> String {
+    format!("<?xml version=\"1.0\" encoding=\"utf-8\"?>\n<AUTOSAR xsi:schemaLocation=\"http://autosar.org/schema/r4.0 AUTOSAR_00050.xsd\" xmlns=\"http://autosar.org/schema/r4.0\" xmlns:xsi=\"http://www.w3.org/2001/XMLSchema-instance\">\n{}</AUTOSAR>\n", body)
+}
+
+/// elements WITHOUT any content that only one file has, in front of siblings the files share (or that another file owns):
+/// the per-file views (ArxmlFile::elements_dfs) must skip the foreign empty element and nothing else
+fn emptyleaf_case(id: usize, rng: &mut SplitMix64, stats: &mut BTreeMap<String, u64>) -> Case {
+    let variant = rng.below(5);
+    let subs = |n: u64| -> String { (0..n).map(|k| format!("<AR-PACKAGE><SHORT-NAME>Sub{}</SHORT-NAME><ELEMENTS><UNIT><SHORT-NAME>u{}</SHORT-NAME></UNIT></ELEMENTS></AR-PACKAGE>", k, k)).collect() };
+    let n0 = 1 + rng.below(2);
+    let n1 = n0 + rng.below(2);
+    let (label, t0, t1): (&str, String, String) = match variant {
+        0 => (
+            // an empty ELEMENTS of file 1 in front of the shared AR-PACKAGES
+            "elements",
+            format!("<AR-PACKAGES><AR-PACKAGE><SHORT-NAME>Pkg</SHORT-NAME><AR-PACKAGES>{}</AR-PACKAGES></AR-PACKAGE></AR-PACKAGES>", subs(n0)),
+            format!("<AR-PACKAGES><AR-PACKAGE><SHORT-NAME>Pkg</SHORT-NAME><ELEMENTS/><AR-PACKAGES>{}</AR-PACKAGES></AR-PACKAGE></AR-PACKAGES>", subs(n1)),
+        ),
+        1 => (
+            // an empty ADMIN-DATA of file 1 below the root, in front of the shared AR-PACKAGES
+            "root-admin-data",
+            format!("<AR-PACKAGES>{}</AR-PACKAGES>", subs(n0)),
+            format!("<ADMIN-DATA/><AR-PACKAGES>{}</AR-PACKAGES>", subs(n1)),
+        ),
+        2 => (
+            // each file has an empty element of its own
+            "both",
+            format!("<AR-PACKAGES><AR-PACKAGE><SHORT-NAME>Pkg</SHORT-NAME><ADMIN-DATA/><AR-PACKAGES>{}</AR-PACKAGES></AR-PACKAGE></AR-PACKAGES>", subs(n0)),
+            format!("<AR-PACKAGES><AR-PACKAGE><SHORT-NAME>Pkg</SHORT-NAME><ELEMENTS/><AR-PACKAGES>{}</AR-PACKAGES></AR-PACKAGE></AR-PACKAGES>", subs(n1)),
+        ),
+        3 => (
+            // an empty PARAMETER-VALUES of file 1 in front of the shared SUB-CONTAINERS
+            "parameter-values",
+            "<AR-PACKAGES><AR-PACKAGE><SHORT-NAME>Pkg</SHORT-NAME><ELEMENTS><ECUC-MODULE-CONFIGURATION-VALUES><SHORT-NAME>m</SHORT-NAME><CONTAINERS><ECUC-CONTAINER-VALUE><SHORT-NAME>c</SHORT-NAME><SUB-CONTAINERS><ECUC-CONTAINER-VALUE><SHORT-NAME>s0</SHORT-NAME></ECUC-CONTAINER-VALUE></SUB-CONTAINERS></ECUC-CONTAINER-VALUE></CONTAINERS></ECUC-MODULE-CONFIGURATION-VALUES></ELEMENTS></AR-PACKAGE></AR-PACKAGES>".to_string(),
+            "<AR-PACKAGES><AR-PACKAGE><SHORT-NAME>Pkg</SHORT-NAME><ELEMENTS><ECUC-MODULE-CONFIGURATION-VALUES><SHORT-NAME>m</SHORT-NAME><CONTAINERS><ECUC-CONTAINER-VALUE><SHORT-NAME>c</SHORT-NAME><PARAMETER-VALUES/><SUB-CONTAINERS><ECUC-CONTAINER-VALUE><SHORT-NAME>s0</SHORT-NAME></ECUC-CONTAINER-VALUE><ECUC-CONTAINER-VALUE><SHORT-NAME>s1</SHORT-NAME></ECUC-CONTAINER-VALUE></SUB-CONTAINERS></ECUC-CONTAINER-VALUE></CONTAINERS></ECUC-MODULE-CONFIGURATION-VALUES></ELEMENTS></AR-PACKAGE></AR-PACKAGES>".to_string(),
+        ),
+        _ => (
+            // an empty sub-package list of file 1 in a package whose ELEMENTS both files have, and empty packages' lists
+            "nested",
+            format!("<AR-PACKAGES><AR-PACKAGE><SHORT-NAME>A</SHORT-NAME><AR-PACKAGES>{}</AR-PACKAGES></AR-PACKAGE><AR-PACKAGE><SHORT-NAME>Pkg</SHORT-NAME><AR-PACKAGES>{}</AR-PACKAGES></AR-PACKAGE></AR-PACKAGES>", subs(1), subs(n0)),
+            format!("<AR-PACKAGES><AR-PACKAGE><SHORT-NAME>A</SHORT-NAME><ELEMENTS/><AR-PACKAGES>{}</AR-PACKAGES></AR-PACKAGE><AR-PACKAGE><SHORT-NAME>Pkg</SHORT-NAME><ADMIN-DATA/><ELEMENTS/><AR-PACKAGES>{}</AR-PACKAGES></AR-PACKAGE><AR-PACKAGE><SHORT-NAME>Z</SHORT-NAME></AR-PACKAGE></AR-PACKAGES>", subs(1), subs(n1)),
+        ),
+    };
+    *stats.entry(format!("emptyleaf_{}", label)).or_insert(0) += 1;
+    let files = vec![
+        CaseFile { name: "f0.arxml".into(), strict: true, text: hdr50(&t0).into_bytes() },
+        CaseFile { name: "f1.arxml".into(), strict: true, text: hdr50(&t1).into_bytes() },
+    ];
+    Case { id, kind: "split-emptyleaf".into(), files, orders: permutations(2) }
+}
+
+/// rejected merges whose file carries, at a level that is merged BEFORE the conflict is reached (an ancestor of the
+/// conflict or an earlier sibling), an extra sub element below a parent that is not splittable (CATEGORY / DESC /
+/// ADMIN-DATA / LOWER-LIMIT below the shared element): the rollback must take it out again
+fn reject_extra_case(id: usize, rng: &mut SplitMix64, stats: &mut BTreeMap<String, u64>) -> Case {
+    let variant = rng.below(4);
+    let pick_extra = |rng: &mut SplitMix64| -> &'static str {
+        *rng.pick(&["<CATEGORY>EXTRA</CATEGORY>", "<DESC><L-2 L=\"EN\">extra</L-2></DESC>", "<ADMIN-DATA><LANGUAGE>EN</LANGUAGE></ADMIN-DATA>", "<LONG-NAME><L-4 L=\"EN\">extra</L-4></LONG-NAME>"])
+    };
+    // the extras of the two files are different kinds of elements, so each one is new for the model when its file comes second
+    let (x0, x1) = loop {
+        let a = if rng.below(3) == 0 { "" } else { pick_extra(rng) };
+        let b = pick_extra(rng);
+        if a.split('>').next() != b.split('>').next() {
+            break (a, b);
+        }
+    };
+    let scale = |lim: &str, alt: &str| format!("<COMPU-INTERNAL-TO-PHYS><COMPU-SCALES><COMPU-SCALE>{}{}</COMPU-SCALE></COMPU-SCALES></COMPU-INTERNAL-TO-PHYS>", lim, alt);
+    let ratio = "<COMPU-RATIONAL-COEFFS><COMPU-NUMERATOR><V>1</V></COMPU-NUMERATOR></COMPU-RATIONAL-COEFFS>";
+    let konst = "<COMPU-CONST><VT>x</VT></COMPU-CONST>";
+    let (label, e0, e1): (&str, String, String) = match variant {
+        0 => (
+            // the extra below the COMPU-METHOD (an ancestor of the conflict), the conflict in its COMPU-SCALE
+            "choice-ancestor",
+            format!("<COMPU-METHOD><SHORT-NAME>zz_cm</SHORT-NAME>{}{}</COMPU-METHOD>", x0, scale("", ratio)),
+            format!("<COMPU-METHOD><SHORT-NAME>zz_cm</SHORT-NAME>{}{}</COMPU-METHOD><UNIT><SHORT-NAME>zz_new</SHORT-NAME></UNIT>", x1, scale("", konst)),
+        ),
+        1 => (
+            // the extra below an earlier sibling (a UNIT both files have), the conflict in the COMPU-METHOD behind it
+            "choice-sibling",
+            format!("<UNIT><SHORT-NAME>aa_u</SHORT-NAME>{}</UNIT><COMPU-METHOD><SHORT-NAME>zz_cm</SHORT-NAME>{}</COMPU-METHOD>", x0, scale("", ratio)),
+            format!("<UNIT><SHORT-NAME>aa_u</SHORT-NAME>{}</UNIT><COMPU-METHOD><SHORT-NAME>zz_cm</SHORT-NAME>{}</COMPU-METHOD>", x1, scale("", konst)),
+        ),
+        2 => (
+            // the extra in the COMPU-SCALE itself, imported just before the alternative that does not fit
+            "choice-same-level",
+            format!("<COMPU-METHOD><SHORT-NAME>zz_cm</SHORT-NAME>{}</COMPU-METHOD>", scale("", ratio)),
+            format!("<COMPU-METHOD><SHORT-NAME>zz_cm</SHORT-NAME>{}{}</COMPU-METHOD>", x1, scale("<LOWER-LIMIT>1</LOWER-LIMIT>", konst)),
+        ),
+        _ => (
+            // diverging identifiable children below the non-splittable DATA-ELEMENTS, the extra below the interface and
+            // below an earlier sibling
+            "nonsplit",
+            format!("<UNIT><SHORT-NAME>aa_u</SHORT-NAME>{}</UNIT><SENDER-RECEIVER-INTERFACE><SHORT-NAME>zz_if</SHORT-NAME>{}<DATA-ELEMENTS><VARIABLE-DATA-PROTOTYPE><SHORT-NAME>one</SHORT-NAME></VARIABLE-DATA-PROTOTYPE></DATA-ELEMENTS></SENDER-RECEIVER-INTERFACE>", x0, x0),
+            format!("<UNIT><SHORT-NAME>aa_u</SHORT-NAME>{}</UNIT><SENDER-RECEIVER-INTERFACE><SHORT-NAME>zz_if</SHORT-NAME>{}<DATA-ELEMENTS><VARIABLE-DATA-PROTOTYPE><SHORT-NAME>other</SHORT-NAME></VARIABLE-DATA-PROTOTYPE></DATA-ELEMENTS></SENDER-RECEIVER-INTERFACE>", x1, x1),
+        ),
+    };
+    *stats.entry(format!("conflict_extra_{}", label)).or_insert(0) += 1;
+    let wrap = |els: &str| hdr50(&format!("<AR-PACKAGES><AR-PACKAGE><SHORT-NAME>Pkg</SHORT-NAME><ELEMENTS>{}</ELEMENTS></AR-PACKAGE></AR-PACKAGES>", els));
+    let files = vec![
+        CaseFile { name: "f0.arxml".into(), strict: true, text: wrap(&e0).into_bytes() },
+        CaseFile { name: "f1.arxml".into(), strict: rng.below(4) != 0, text: wrap(&e1).into_bytes() },
+    ];
+    Case { id, kind: format!("conflict-extra-{}", label), files, orders: permutations(2) }
+}
+
 fn assign_all(d: &mut D, mask: u32) {
     d.files = mask;
     for k in d.kids.iter_mut() {
@@ -1401,10 +1542,20 @@ fn gen_main(args: &[String]) {
         let id = cases.len();
         cases.push(multi_case(id, &mut rng, &mut stats));
     }
+    // empty one-file-only elements in front of shared siblings; rejected files with an extra element that is imported
+    // before the conflict (appended as well)
+    for _ in 0..if thorough { 80 } else { 25 } {
+        let id = cases.len();
+        cases.push(emptyleaf_case(id, &mut rng, &mut stats));
+    }
+    for _ in 0..if thorough { 120 } else { 40 } {
+        let id = cases.len();
+        cases.push(reject_extra_case(id, &mut rng, &mut stats));
+    }
     std::fs::write(&args[2], write_cases(&cases)).unwrap();
     // scripts for the correspondence: a sample of the cases (every k-th), all their orders
     let step = if thorough { 3 } else { 4 };
-    let sample: Vec<Case> = cases.iter().filter(|c| c.id % step == 0 || c.kind.starts_with("conflict") || c.kind.contains("multi")).cloned().collect();
+    let sample: Vec<Case> = cases.iter().filter(|c| c.id % step == 0 || c.kind.starts_with("conflict") || c.kind.contains("multi") || c.kind == "split-emptyleaf").cloned().collect();
     let (script, n) = cases_to_script(&sample, 0);
     std::fs::write(&args[3], script).unwrap();
     println!("STAT cases={} scripts={} orders={}", cases.len(), n, cases.iter().map(|c| c.orders.len()).sum::<usize>());
